@@ -34,29 +34,19 @@ from scanpipe import T, P
 # Genuine defects of the unchanged tree found by this check and not (yet) repaired; each is routed
 # through ctx.report_failure with exactly this key (any other failure is still a VIOLATION).
 #
-# The five findings this check produced first were all repaired in /repo and pass without
+# The findings this check produced were all repaired in /repo and pass without
 # suppression (re-validated against HEAD through the corpus witnesses, which run first):
 #   gen:varargs:skipped-parameter                                   1110ea5  corpus varargs-skip
 #   gen:field-callback-non-introspectable:skip-propagated-callback  efccda4  corpus field-callback-skip-propagated
 #   gen:shadowed-by-not-mutual:rename-to-chain                      9b2e314  corpus rename-to-chain
 #   gen:get-property-mismatch:several-getter-candidates             a10e011  corpus class-two-getter-candidates
 #   shipped:gir/freetype2-2.0.gir:...alias[Int32]...                e90adbd  (shipped files are all judged)
+#   gen:getter-mismatch:getter-claimed-for-another-property /
+#   gen:get-property-mismatch:getter-of-another-property           9e81059  corpus property-is-active-before-active
+#   gen:invoker-not-a-method:virtual-annotation-on-constructor-or-function
+#                                                                   9b727dd  corpus virtual-annotation-on-constructor-and-static-function
 # The keys above are still what `classify` produces should one of them come back.
-PENDING_FINDINGS = {
-    'gen:invoker-not-a-method:virtual-annotation-on-constructor-or-function':
-        "a (virtual slot) annotation on a constructor or a static function of a class makes that name the "
-        "invoker of the virtual method: <virtual-method invoker=\"new\"> although `new` is a <constructor>, not a "
-        "<method> (MainTransformer._pass_read_annotations2 accepts any ast.Function below the class)",
-    'gen:getter-mismatch:getter-claimed-for-another-property':
-        "read-only boolean properties `is-active` and `active` (in this order) with methods get_active and "
-        "is_active: is_active is first paired with `is-active` (getter=\"is_active\"), then "
-        "_pair_property_accessors overwrites its get_property with `active` (a lower-priority candidate there, "
-        "not chosen) and never restores it: property is-active names getter is_active, which claims "
-        "glib:get-property=\"active\"",
-    'gen:get-property-mismatch:getter-of-another-property':
-        "same input: method is_active carries glib:get-property=\"active\" but property `active` names "
-        "getter=\"get_active\" (is_active is the getter of property `is-active`)",
-}
+PENDING_FINDINGS = {}
 
 EXEMPT = ('GLib.DestroyNotify', 'Gio.AsyncReadyCallback')
 
